@@ -38,6 +38,7 @@ BOUND = "exists('str|None', lambda k: k in self.ns_map and self.ns_map[k] == {u}
 def register(db):
     collab.declare(db)
     register_end_tag(db)
+    register_start_namespaces(db)
     P = ["C03"]
     # abstract SAX callbacks: their calls are recorded on the ghost trace
     for m in ("start_document", "end_document", "start_element", "end_element", "set_characters",
@@ -93,7 +94,7 @@ def register(db):
                     call_ensures=["self.pending_tag is None", FRAME,
                                   "implies(old(self.pending_tag) is None, same_dict(self.ns_map, old(self.ns_map)))"],
                     note="call-site view of flush_start: the pending tag is emitted, existing bindings are kept"))
-    db.add(Contract(f"{EH}.start_namespaces", trusted=True, params={}, raises={},
+    db.add(Contract(f"{EH}.start_namespaces", variant="call-view", trusted=True, call_default=True, params={}, raises={},
                     note="assumed here: forwards the scope's new bindings to the back end (loop over the map)"))
     for depth in (0, 1):
         db.add(Contract(
@@ -165,6 +166,28 @@ def register(db):
     ))
 
 
+def register_start_namespaces(db):
+    """start_namespaces: exactly the bindings of the current scope that the parent scope does not already have are
+    declared to the back end (so every prefix in scope is either declared on this element or inherited, C03), and the
+    prefixes declared here are remembered for end_tag."""
+    P = ["C03"]
+    DECL = ("called('EventHandler.start_prefix_mapping') == 1 and call_arg('EventHandler.start_prefix_mapping', 1) == prefix "
+            "and call_arg('EventHandler.start_prefix_mapping', 2) == uri")
+    for depth in (1, 2):
+        parent = "scope0" if depth == 2 else None
+        inherited = f"(prefix in {parent} and {parent}[prefix] == uri)" if parent else "False"
+        db.add(Contract(
+            f"{EH}.start_namespaces", variant=f"depth{depth}",
+            params={"self": handler(depth, None)},
+            ensures=[("the-declared-prefixes-are-remembered-for-the-end-tag", "called('PyList.append') == 1")],
+            raises={},
+            loops=[Loop(invariants=[], header="self.ns_map.items()", modifies=["prefixes"],
+                        step=[("a-binding-the-parent-lacks-is-declared", f"implies(not {inherited}, {DECL})"),
+                              ("an-inherited-binding-is-not-declared-again", f"implies({inherited}, called('EventHandler.start_prefix_mapping') == 0)")])],
+            properties=P,
+        ))
+
+
 def register_end_tag(db):
     """end_tag closes exactly the innermost scope: the element is ended once with the expanded name of its qname,
     the namespace context loses its top entry and the handler's current map is the parent's scope *object* again
@@ -188,6 +211,8 @@ def register_end_tag(db):
                     ("parent-scope-content-untouched", f"same_dict(scope{depth - 2}, old(scope{depth - 2}))")]
                  if depth >= 2 else []),
             raises={}, modifies=["self.ns_map", "self.tail", "self.in_tail", "self.ns_context", "self.pending_tag", "self.attrs"],
-            loops=[Loop(invariants=[], header="self.pending_prefixes.pop()")],
+            loops=[Loop(invariants=[], header="self.pending_prefixes.pop()",
+                        step=[("every-prefix-declared-on-the-element-is-undeclared-at-its-end",
+                               "called('EventHandler.end_prefix_mapping') == 1 and call_arg('EventHandler.end_prefix_mapping', 1) == prefix")])],
             properties=P,
         ))
